@@ -1,9 +1,18 @@
 import Driver.Lb
 import Driver.LbSpec
+import Driver.Adapter
+import Driver.Closed
+import Driver.Stream
+import Driver.OpCache
+import Netpoll.Gen.Consts
 import Driver.Fd
 def main (args : List String) : IO UInt32 := do
   match args with
   | ["lb"] => Driver.Lb.main; return 0
   | ["lbspec", ops, impl] => Driver.LbSpec.main ops impl; return 0
+  | ["opcache"] => Driver.OpCache.main; return 0
+  | ["stream"] => Driver.Stream.main; return 0
+  | ["closed"] => Driver.Closed.main; return 0
+  | ["adapter"] => Driver.Adapter.main Netpoll.Gen.c_block4k; return 0
   | ["fd"] => Driver.Fd.main; return 0
-  | _ => IO.eprintln "usage: npdriver lb | lbspec <ops> <impl>"; return 2
+  | _ => IO.eprintln "usage: npdriver lb | lbspec <ops> <impl> | adapter | fd"; return 2
